@@ -109,8 +109,12 @@ func (m *Merged) add(r *Report, tag string) {
 			m.Outcomes[k] = v
 		}
 	}
-	if r.Rule != "" {
-		m.Rule = r.Rule
+	if r.Rule != "" && !strings.Contains(m.Rule, r.Rule) {
+		// a check with several parts: what each part enumerated
+		if m.Rule != "" {
+			m.Rule += " || "
+		}
+		m.Rule += r.Rule
 	}
 }
 
